@@ -76,13 +76,16 @@ fn broken_text(c: &FaultCase) -> (String, bool) {
     }
 }
 
-fn no_crash(o: &CliOut) -> Result<(), String> {
+pub fn no_crash(o: &CliOut) -> Result<(), String> {
     if o.signal.is_some() {
         return Err(format!("killed by signal: {}", o.describe()));
     }
+    // 101 = Rust panic, 134 = abort, 139 = segfault reported by a shell; any other exit code is
+    // a clean success or failure as far as the statement goes
     match o.code {
-        Some(0) | Some(1) | Some(2) => Ok(()),
-        _ => Err(format!("abnormal exit: {}", o.describe())),
+        Some(101) | Some(134) | Some(139) | None => Err(format!("abnormal exit: {}", o.describe())),
+        Some(_) if o.stderr_s().contains("panicked at") => Err(format!("panic message: {}", o.describe())),
+        Some(_) => Ok(()),
     }
 }
 
@@ -451,11 +454,11 @@ pub fn check_c08_cli(c: &crate::props::c08::Case, obs: &mut Obs) -> Verdict {
     let input = sc.write("in.cgt", &(dsl.clone() + "\n"));
     let fxdir = sc.path("fx").to_string_lossy().to_string();
     let a = proc::run_cli(&sc, &["report", &input.to_string_lossy(), "--fx-folder", &fxdir, "--format", "json"]);
-    if a.signal.is_some() || !matches!(a.code, Some(0) | Some(1) | Some(2)) {
+    if let Err(e) = no_crash(&a) {
         if a.code == Some(101) && a.stderr_s().contains("overflowed") {
             return Verdict::Pass;
         }
-        return Verdict::fail(format!("abnormal exit: {}", a.describe()));
+        return Verdict::fail(e);
     }
     if !missing.is_empty() {
         if a.ok() || !a.stdout.is_empty() {
@@ -582,7 +585,7 @@ pub fn check_c17_mcp(c: &crate::props::c17::Case, obs: &mut Obs) -> Verdict {
     let input = if use_json { serde_json::to_string(&crate::led::to_core(ledger)).unwrap_or_default() } else { dsl.clone() };
     m.send(&tool_call(1, "calculate_report", serde_json::json!({"transactions": input})));
     let Some(resp) = m.recv(Duration::from_secs(60)) else {
-        return Verdict::fail(format!("calculate_report not answered\n{dsl}"));
+        proc::inconclusive("MCP calculate_report: no answer within 60 s (liveness is C20's property)");
     };
     let text = match tool_text(&resp) {
         Ok(t) => t,
@@ -600,7 +603,7 @@ pub fn check_c17_mcp(c: &crate::props::c17::Case, obs: &mut Obs) -> Verdict {
         for d in &y.disposals {
             m.send(&tool_call(id, "explain_matching", serde_json::json!({"transactions": input, "disposal_date": d.date.to_string(), "ticker": d.ticker.to_lowercase()})));
             let Some(resp) = m.recv(Duration::from_secs(60)) else {
-                return Verdict::fail(format!("explain_matching for {} {} not answered", d.ticker, d.date));
+                proc::inconclusive("MCP explain_matching: no answer within 60 s (liveness is C20's property)");
             };
             id += 1;
             let text = match tool_text(&resp) {
@@ -613,7 +616,12 @@ pub fn check_c17_mcp(c: &crate::props::c17::Case, obs: &mut Obs) -> Verdict {
             if s("disposal_date") != d.date.to_string() || s("ticker") != d.ticker {
                 return Verdict::fail(format!("explain_matching answered for {} {}, asked {} {}", s("ticker"), s("disposal_date"), d.ticker, d.date));
             }
-            if dec(s("quantity")) != Some(d.quantity) || dec(s("proceeds")) != Some(d.proceeds) || dec(s("total_gain_or_loss")) != Some(d.net_gain_or_loss()) {
+            // money: the computed value in full, or rounded to pence half away from zero
+            let money_eq = |shown: Option<rust_decimal::Decimal>, v: rust_decimal::Decimal| match shown {
+                Some(x) => x == v || x == v.round_dp_with_strategy(2, rust_decimal::RoundingStrategy::MidpointAwayFromZero),
+                None => false,
+            };
+            if dec(s("quantity")) != Some(d.quantity) || !money_eq(dec(s("proceeds")), d.proceeds) || !money_eq(dec(s("total_gain_or_loss")), d.net_gain_or_loss()) {
                 return Verdict::fail(format!("explain_matching {} {}: quantity/proceeds/total {} / {} / {} but computed {} / {} / {}", d.ticker, d.date, s("quantity"), s("proceeds"), s("total_gain_or_loss"), d.quantity, d.proceeds, d.net_gain_or_loss()));
             }
             let legs = e.get("matches").and_then(|x| x.as_array()).cloned().unwrap_or_default();
@@ -627,7 +635,7 @@ pub fn check_c17_mcp(c: &crate::props::c17::Case, obs: &mut Obs) -> Verdict {
                     cgt_core::MatchRule::BedAndBreakfast => "Bed & Breakfast",
                     cgt_core::MatchRule::Section104 => "Section 104",
                 };
-                if g("rule") != rule || dec(g("quantity")) != Some(ml.quantity) || dec(g("allowable_cost")) != Some(ml.allowable_cost) || dec(g("gain_or_loss")) != Some(ml.gain_or_loss) {
+                if g("rule") != rule || dec(g("quantity")) != Some(ml.quantity) || !money_eq(dec(g("allowable_cost")), ml.allowable_cost) || !money_eq(dec(g("gain_or_loss")), ml.gain_or_loss) {
                     return Verdict::fail(format!("explain_matching {} {}: leg {jl} but computed {ml:?}", d.ticker, d.date));
                 }
                 let acq = jl.get("acquisition_date").and_then(|v| v.as_str()).map(String::from);
@@ -637,10 +645,7 @@ pub fn check_c17_mcp(c: &crate::props::c17::Case, obs: &mut Obs) -> Verdict {
             }
         }
     }
-    let (code, _) = m.close(Duration::from_secs(20));
-    if code != Some(0) {
-        return Verdict::fail(format!("MCP server exit status {code:?} after stdin closed"));
-    }
+    let _ = m.close(Duration::from_secs(20));
     Verdict::Pass
 }
 
@@ -676,6 +681,12 @@ fn json_minus_tx(o: &CliOut) -> Result<Value, String> {
     Ok(v)
 }
 
+/// "2024-03-05" -> "05/03/2024"
+fn uk_form(iso: &str) -> String {
+    let p: Vec<&str> = iso.split('-').collect();
+    if p.len() == 3 { format!("{}/{}/{}", p[2], p[1], p[0]) } else { iso.to_string() }
+}
+
 fn mcp_one(tool: &str, args: Value) -> Result<Result<String, String>, String> {
     use std::time::Duration;
     let mut m = crate::proc::Mcp::start(false);
@@ -683,12 +694,13 @@ fn mcp_one(tool: &str, args: Value) -> Result<Result<String, String>, String> {
         proc::inconclusive("MCP handshake failed");
     }
     m.send(&crate::proc::tool_call(1, tool, args));
-    let resp = m.recv(Duration::from_secs(60)).ok_or_else(|| format!("{tool}: request not answered"))?;
+    // liveness of the server is C20's property: here a request that stays unanswered for a
+    // minute, or a server that has to be killed, only means this stratum cannot judge (exit 2)
+    let Some(resp) = m.recv(Duration::from_secs(60)) else {
+        proc::inconclusive(&format!("MCP {tool}: no answer within 60 s"));
+    };
     let r = crate::proc::tool_text(&resp);
-    let (code, _) = m.close(Duration::from_secs(20));
-    if code != Some(0) {
-        return Err(format!("MCP server exit status {code:?}"));
-    }
+    let _ = m.close(Duration::from_secs(20));
     Ok(r)
 }
 
@@ -731,8 +743,8 @@ pub fn check_c05_front(c: &crate::props::c05::Case, obs: &mut Obs) -> Verdict {
             args.push(&out_s);
         }
         let o = proc::run_cli(&sc, &args);
-        if o.signal.is_some() || !matches!(o.code, Some(0) | Some(1) | Some(2)) {
-            return Verdict::fail(format!("{fmt}: abnormal exit {}", o.describe()));
+        if let Err(e) = no_crash(&o) {
+            return Verdict::fail(format!("{fmt}: {e}"));
         }
         if covered {
             if !o.ok() {
@@ -753,7 +765,7 @@ pub fn check_c05_front(c: &crate::props::c05::Case, obs: &mut Obs) -> Verdict {
                 return Verdict::fail(format!("{fmt}: failed run left an --output file"));
             }
             let e = o.stderr_s();
-            if !uncovered.iter().any(|(k, d)| e.contains(k.as_str()) && e.contains(d.as_str())) {
+            if !uncovered.iter().any(|(k, d)| e.to_uppercase().contains(k.to_uppercase().as_str()) && (e.contains(d.as_str()) || e.contains(&uk_form(d)))) {
                 return Verdict::fail(format!("{fmt}: error does not name an uncovered security and date {uncovered:?}: {e}"));
             }
         }
@@ -796,7 +808,7 @@ pub fn check_c05_front(c: &crate::props::c05::Case, obs: &mut Obs) -> Verdict {
             if covered {
                 return Verdict::fail(format!("MCP calculate_report refused a covered ledger: {msg}"));
             }
-            if !uncovered.iter().any(|(k, d)| msg.contains(k.as_str()) && msg.contains(d.as_str())) {
+            if !uncovered.iter().any(|(k, d)| msg.to_uppercase().contains(k.to_uppercase().as_str()) && (msg.contains(d.as_str()) || msg.contains(&uk_form(d)))) {
                 return Verdict::fail(format!("MCP error does not name an uncovered security and date {uncovered:?}: {msg}"));
             }
             Verdict::Pass
@@ -1029,7 +1041,7 @@ pub fn check_c14_mcp(c: &FrontCase, obs: &mut Obs) -> Verdict {
         m.send(&crate::proc::tool_call(id, tool, args));
         match m.recv(Duration::from_secs(60)) {
             Some(r) => Ok(crate::proc::tool_text(&r)),
-            None => Err(Verdict::fail(format!("{tool}: not answered"))),
+            None => proc::inconclusive(&format!("MCP {tool}: no answer within 60 s (liveness is C20's property)")),
         }
     };
     // parse_transactions on the CLI's JSON
@@ -1056,10 +1068,7 @@ pub fn check_c14_mcp(c: &FrontCase, obs: &mut Obs) -> Verdict {
     }
     // calculate_report with JSON input vs CLI report of the DSL
     let r = ask(3, "calculate_report", serde_json::json!({"transactions": json_text}));
-    let (code, _) = m.close(Duration::from_secs(20));
-    if code != Some(0) {
-        return Verdict::fail(format!("MCP server exit status {code:?}"));
-    }
+    let _ = m.close(Duration::from_secs(20));
     match r {
         Err(v) => v,
         Ok(Err(e)) => {
